@@ -21,7 +21,7 @@ where
 
     #[inline]
     fn count(h: usize, start: usize) -> usize {
-        h - start + 1
+        h + 1 - start
     }
 
     #[inline]
